@@ -6,14 +6,27 @@ from .. import lattice as L
 TOL = 1e-9
 
 
-def _pwa(o, cls=None, tgt_kind="pointcloud"):
+def _pwa(o, cls=None, tgt_kind="pointcloud", src_kind="trimesh", orient="given"):
     import menpo.transform as mt
     import menpo.transform.piecewiseaffine.base as pb
-    from menpo.shape import PointCloud, TriMesh
+    from menpo.shape import ColouredTriMesh, PointCloud, TexturedTriMesh, TriMesh
 
     S, T = L.pts(o["S"]), L.pts(o["T"])
     tris = np.array(o["tris"], dtype=int) - 1
-    src = TriMesh(S, trilist=tris)
+    # the same set of triangles listed clockwise / with mixed orientation is the same triangulation
+    if orient == "cw":
+        tris = tris[:, ::-1].copy()
+    elif orient == "mixed":
+        tris = tris.copy()
+        tris[::2] = tris[::2, ::-1]
+    if src_kind == "coloured":
+        src = ColouredTriMesh(S, trilist=tris, colours=np.full((len(S), 3), 0.5))
+    elif src_kind == "textured":
+        from menpo.image import Image
+
+        src = TexturedTriMesh(S, S / (np.abs(S).max() + 1.0), Image(np.zeros((1, 4, 4))), trilist=tris)
+    else:
+        src = TriMesh(S, trilist=tris)
     if tgt_kind == "pointcloud":
         tgt = PointCloud(T)
     elif tgt_kind == "trimesh_same":
@@ -37,6 +50,17 @@ def check_pwa(o):
     got = w.apply(pts)
     if not L.close(got, img, TOL):
         bad.append(("PWA map differs from the exact barycentric map", {"maxdiff": L.maxdiff(got, img)}, None))
+    # the orientation in which a triangle is listed is not part of the triangulation; nor is the payload of the source mesh
+    if c["tgt"] == "pointcloud":
+        for kw in (dict(orient="cw"), dict(orient="mixed"), dict(src_kind="coloured")):
+            tagv = "triangles listed %s" % kw["orient"] if "orient" in kw else "source given as a coloured mesh"
+            try:
+                wv, _, _ = _pwa(o, c["cls"], c["tgt"], **kw)
+                gv = wv.apply(pts)
+                if not L.close(gv, img, TOL) or not L.close(wv.apply(S), T, TOL):
+                    bad.append(("PWA with %s is another map" % tagv, {"maxdiff": L.maxdiff(gv, img)}, None))
+            except TriangleContainmentError:
+                bad.append(("PWA with %s rejects points of its own triangles" % tagv, {}, None))
     if not L.close(w.aligned_source().points, T, TOL) or abs(w.alignment_error()) > 1e-9:
         bad.append(("aligned_source / alignment_error inconsistent", {"err": w.alignment_error()}, None))
     for k in list(range(1, 6)) + [len(pts) - 1, len(pts), len(pts) + 2]:
@@ -125,6 +149,24 @@ def check_mask(o):
             g1 = np.asarray(w.apply(pts[ii:ii + 1].copy(), batch_size=b))
             if g1.shape != (1, 2) or not L.close(g1, img[ii:ii + 1], TOL):
                 bad.append((cls + ": a single in-domain point is not mapped to its image", {"batch": b}, None))
+    # the source given as a mesh that carries colours / a texture, or with its triangles listed clockwise / in mixed orientation, is
+    # the same triangulation: same domain (the triangle list decides, not the convex hull), same map
+    for kw in (dict(src_kind="coloured"), dict(src_kind="textured"), dict(orient="cw"), dict(orient="mixed")):
+        tagv = "source %s" % ("as a %s mesh" % kw["src_kind"] if "src_kind" in kw else "with triangles listed %s" % kw["orient"])
+        try:
+            wv, _, _ = _pwa(o, "PiecewiseAffine", **kw)
+            gv = wv.apply(pts.copy(), batch_size=b)
+            if want.any():
+                bad.append(("PiecewiseAffine, %s: out-of-domain points accepted" % tagv, {"batch": b}, None))
+            elif not L.close(gv, img, TOL):
+                bad.append(("PiecewiseAffine, %s: another map" % tagv, {"batch": b}, None))
+        except TriangleContainmentError as e:
+            mv = np.asarray(e.points_outside_source_domain).astype(bool)
+            if not want.any():
+                bad.append(("PiecewiseAffine, %s: in-domain points rejected" % tagv, {"batch": b}, None))
+            elif mv.shape != want.shape or not np.array_equal(mv, want):
+                bad.append(("PiecewiseAffine, %s: the containment error flags other points (the domain is the triangle list, not the hull)" % tagv,
+                            {"batch": b, "got": mv, "want": want}, None))
     # the same containment decides which pixels a boolean image keeps (constrain_to_pointcloud): one flag per index, any batch size
     from menpo.image.boolean import pwa_point_in_pointcloud
     from menpo.shape import TriMesh
